@@ -58,6 +58,32 @@ def run_case(case):
             if hist is not None:
                 previous[lvl + 1][name] = hist
     S.pipeline_paused = False
+    prior = None
+    if case.get('prior'):
+        # the (re)load happens in a pipeline that has been working: everything
+        # was scheduled by an earlier load, a dispatch released what it could
+        # (those jobs are `running`, their units wait in the farm's queue: no
+        # worker is registered), and new requests arrived for running jobs.
+        # All through the real calls; C15_build_exact speaks about ANY previous
+        # state.
+        import dawgie.pl.farm as F
+        F.clear()
+        F.ARCHIVE = False
+        F.insights.clear()
+        D.W['stored'] = 0
+        D.fsm.active = True
+        S.build(Fs, latest, [{}, {}, {}, {}])
+        F.dispatch()
+        tags0 = sorted(D.all_nodes())
+        for _ in range(rng.randint(1, 3)):
+            S.organize(rng.sample(tags0, rng.randint(1, min(3, len(tags0)))), None,
+                       set(rng.sample(tnames, rng.randint(1, len(tnames)))), 'driver')
+        if rng.random() < 0.5:
+            F.dispatch()
+        prior = {'que': [j.tag for j in S.que],
+                 'running': [j.tag for j in S.que if j.get('status') is S.State.running],
+                 'running_with_todo': [j.tag for j in S.que if j.get('status') is S.State.running and j.get('todo')]}
+        D.W['outs'].clear()
     S.build(Fs, latest, previous)
     N = D.all_nodes()
     tags = sorted(N)
@@ -92,14 +118,18 @@ def run_case(case):
         'own_sv': [[ks[k], nid.get('.'.join(k.split('.')[:2]), 998)] for k in sorted(ks)],
         'own_v': [[kv[k], nid.get('.'.join(k.split('.')[:2]), 998)] for k in sorted(kv)],
     }
-    obs = {'que': [nid[j.tag] for j in S.que],
+    # an entry of the queue that is not a node of the tree build() just made
+    # (left over from the previous engine) is reported by its tag
+    obs = {'que': [nid[j.tag] for j in S.que if j.tag in nid and N[j.tag] is j],
+           'foreign': [j.tag for j in S.que if not (j.tag in nid and N[j.tag] is j)],
            'nodes': [[sorted(tid[x] for x in N[t].get('todo')), sorted(tid[x] for x in N[t].get('doing')),
                       sorted(tid[x] for x in N[t].get('do')), N[t].get('status').value, N[t].get('runid')]
                      for t in tags]}
     # independent reference: which algorithms have a bumped/unknown name at any level
     expect = sorted({nid['.'.join(k.split('.')[:2])] for k, f in fate.items() if f != 'same'})
     return {'graph': graph, 'tables': T, 'obs': obs, 'expect_changed': expect,
-            'fates': sorted(set(fate.values())), 'desc': desc, 'latest': latest, 'previous': previous}
+            'fates': sorted(set(fate.values())), 'desc': desc, 'latest': latest, 'previous': previous,
+            'prior': prior}
 
 
 if __name__ == '__main__':
